@@ -27,9 +27,9 @@ func (vhRelayerStub) VerifyNonProposal(ctx context.Context, req relayertypes.INo
 	return nil, nil
 }
 func (vhRelayerStub) UpdateRandao(ctx context.Context, req relayertypes.IVoteMsg) error { return nil }
-func (vhRelayerStub) HasPubkey(ctx context.Context, raw []byte) (bool, error)            { return true, nil }
-func (vhRelayerStub) AddNewKey(ctx context.Context, raw []byte) error                    { return nil }
-func (vhRelayerStub) SetProposalSeq(ctx context.Context, seq uint64) error               { return nil }
+func (vhRelayerStub) HasPubkey(ctx context.Context, raw []byte) (bool, error)           { return true, nil }
+func (vhRelayerStub) AddNewKey(ctx context.Context, raw []byte) error                   { return nil }
+func (vhRelayerStub) SetProposalSeq(ctx context.Context, seq uint64) error              { return nil }
 
 // VH_C18_bitcoin: export of any reachable bridge state re-imports without panic into an equal
 // state (parameters, key, voted block hashes and tip, credited deposits, withdrawals,
